@@ -162,6 +162,31 @@ func runC30(c *core.Ctx) {
 		c.Result(bad == "", "C30.c", "INIT", "makeParameter:blob-never-nil", c.P.Pos(fn.Pos()),
 			"every blob parameter is built from an allocated slice", "a blob parameter is built from a slice that can be nil ("+bad+"): an empty byte array would be bound as NULL instead of a zero-length blob", nil)
 	}
+	// C30.c on the way out: a blob read back from SQLite stays the scanned slice (or a
+	// copy that keeps a zero-length blob non-nil) — the JSON encoder writes a nil
+	// []byte as null
+	if fn := c.Fn("C30.c", "db", "normalizeRowParameters"); fn != nil {
+		bad := ""
+		blobs := 0
+		an.Instrs(fn, func(in ssa.Instruction) {
+			st, ok := in.(*ssa.Store)
+			if !ok {
+				return
+			}
+			t, f, _, ok := an.FieldOf(st.Addr)
+			if !ok || t != "Parameter_Y" || f != "Y" {
+				return
+			}
+			blobs++
+			if mayBeNilSlice(st.Val, map[ssa.Value]bool{}) {
+				bad = an.Canon(st.Val)
+			}
+		})
+		c.Count("blob results built in normalizeRowParameters", blobs)
+		c.Min("blob results built in normalizeRowParameters", 1)
+		c.Result(bad == "", "C30.c", "INIT", "normalizeRowParameters:blob-never-nil", c.P.Pos(fn.Pos()),
+			"a blob read from a row is handed on as the scanned slice", "a blob read from a row is rebuilt from a slice that can be nil ("+bad+"): a zero-length blob is then returned as JSON null instead of an empty value", nil)
+	}
 	// C30.b UseNumber
 	if fn := c.Fn("C30.b", "http", "ParseRequest"); fn != nil {
 		use := an.CallsTo(fn, false, "encoding/json.Decoder.UseNumber")
